@@ -147,9 +147,16 @@ def observe_findings(arg):
     cb = Codebase("/r")
     k = 0
     allv = longs + shorts
-    # spread over 3 files, interleaved so that file order differs from length order
+    # over 3 files: interleaved so that file order differs from length order (variant 0), everything above 30 lines
+    # in ONE file (variant 1), or all but three of them in one file (variant 2) - the 10-row cut is per report
+    if variant == 0:
+        split = [allv[fi::3] for fi in range(3)]
+    elif variant == 1:
+        split = [longs, shorts[:1], shorts[1:]]
+    else:
+        split = [longs[3:] + shorts[:1], longs[:2], longs[2:3] + shorts[1:]]
     for fi in range(3):
-        vals = allv[fi::3]
+        vals = split[fi]
         ms = [Measurement(f"fn{fi}_{j}", Location(1 + 300 * j, 1), Location(2 + 300 * j, 2), L) for j, L in enumerate(vals)]
         lengths += vals
         cb.add_file(SourceFileEntry(f"d/f{fi}.py", "s", "Python", sum(vals), ms))
